@@ -304,6 +304,16 @@ func (c *Ctx) guardIsDraft(g guardAtom, want int64) bool {
 // string-valued inputs (finite-partition abstract evaluation, DESIGN 3.6).
 // bind gives the concrete string for input values (the parameter, or a load of a field).
 func evalStringFn(fn *ssa.Function, bind func(v ssa.Value) (string, bool)) (constant.Value, bool) {
+	return evalPureFn(fn, func(v ssa.Value) (constant.Value, bool) {
+		if s, ok := bind(v); ok {
+			return constant.MakeString(s), true
+		}
+		return nil, false
+	})
+}
+
+// evalPureFn evaluates a pure SSA function over one concrete binding of its inputs.
+func evalPureFn(fn *ssa.Function, bind func(v ssa.Value) (constant.Value, bool)) (constant.Value, bool) {
 	if len(fn.Blocks) == 0 {
 		return nil, false
 	}
@@ -314,8 +324,8 @@ func evalStringFn(fn *ssa.Function, bind func(v ssa.Value) (string, bool)) (cons
 		if depth == 0 {
 			return nil, false
 		}
-		if s, ok := bind(v); ok {
-			return constant.MakeString(s), true
+		if cv, ok := bind(v); ok {
+			return cv, true
 		}
 		switch x := v.(type) {
 		case *ssa.Const:
